@@ -151,6 +151,10 @@ func checkCase(c Case, s *rt.Section) *rt.Failure {
 		}
 		return s.NewFailure("matched-alone", o2.pi.Sig(), c, "running Matched alone panics: "+o2.pi.Value, "no panic")
 	}
+	if o2.err != nil && c.Cfg.ParseLimit > 0 && strings.Contains(o2.err.Error(), "parse budget") {
+		s.Discard("parse-budget-on-matched-alone")
+		return nil
+	}
 	if o2.err != nil {
 		return s.NewFailure("matched-alone", "c03:alone-error/"+rc, c, fmt.Sprintf("Matched=%q alone fails: %v", o1.matched, o2.err), "Matched alone evaluates")
 	}
@@ -202,6 +206,9 @@ var fixedProgs = []string{
 	"1 ? 2 : 3", "0 ? 2, 1 ? 3", "[1,2,3].len()", "x = {'k': [1,2]}; x.k", "1 || 2", "null ?? 3", "-5", "1 < 2",
 }
 
+// snippets that are dice under one flag setting and variable loads (or other dice) under another
+var flagSnippets = []string{"f", "x = f", "f + 1", "b", "p2", "b + 1", "2a10", "y = 2a10k8", "3c6", "z = 3c6m8", "a10", "c", "p", "2d6 + f", "[f, b]"}
+
 func TestProp(t *testing.T) {
 	run := rt.Begin(t, "C03")
 	defer run.Finish()
@@ -221,10 +228,27 @@ func TestProp(t *testing.T) {
 			c.Setup = []string{gen.Print(g0.Program())}
 		}
 		g := gen.NewG(t, o, env)
+		// a parse budget must not change what the consumed text means (a run that exhausts it is rejected, which is outside the property)
+		if rapid.IntRange(0, 3).Draw(t, "withParseLimit") == 0 {
+			c.Cfg.ParseLimit = uint64(rapid.SampledFrom([]int{300, 600, 1000, 1400, 1800, 2200, 3000, 4000, 6000, 10000, 30000}).Draw(t, "parseLimit"))
+		}
 		var prog string
-		if rapid.IntRange(0, 3).Draw(t, "fixedProg") == 0 {
+		switch k := rapid.IntRange(0, 9).Draw(t, "progKind"); {
+		case k == 0:
+			// text whose meaning depends on the family flags, around an #EnableDice macro line
+			n := rapid.IntRange(1, 3).Draw(t, "macroParts")
+			for i := 0; i < n; i++ {
+				if i > 0 {
+					prog += rapid.SampledFrom([]string{"; ", "\n"}).Draw(t, "macroSep")
+				}
+				prog += rapid.SampledFrom(flagSnippets).Draw(t, "flagSnippet")
+			}
+			prog += "\n// #EnableDice " + rapid.SampledFrom([]string{"fate", "coc", "wod", "doublecross"}).Draw(t, "macroFam") + " " +
+				rapid.SampledFrom([]string{"true", "false"}).Draw(t, "macroOn") + "\n" + rapid.SampledFrom(flagSnippets).Draw(t, "flagSnippet")
+			s.Class("prog:macro")
+		case k <= 2:
 			prog = rapid.SampledFrom(fixedProgs).Draw(t, "fixed")
-		} else {
+		default:
 			z := &gen.Noise{Vals: rapid.SliceOfN(rapid.IntRange(0, 1000), 0, 12).Draw(t, "noise")}
 			prog, _ = gen.PrintNoisy(g.Program(), z)
 		}
@@ -261,5 +285,43 @@ func TestReplay(t *testing.T) {
 			}
 			return checkCase(c, s)
 		},
+	})
+}
+
+// FuzzC03 (thorough tier): coverage-guided search over raw source bytes with the same metamorphic oracle.
+// The first two bytes select the configuration; the rest is the input text.
+func FuzzC03(f *testing.F) {
+	for _, p := range fixedProgs {
+		f.Add([]byte("\x0f\x00" + p + " reason"))
+		f.Add([]byte("\x0f\x00" + p + "\n{'a':1"))
+	}
+	f.Add([]byte("\x0f\x005\n{'a':1"))
+	f.Add([]byte("\x0f\x00x = [1,2][0"))
+	f.Add([]byte("\x00\x011 ? 2,{'a"))
+	_, s := rt.FuzzRun("C03", "tail")
+	f.Fuzz(func(t *testing.T, data []byte) {
+		if len(data) < 3 || len(data) > 400 {
+			return
+		}
+		c := Case{Src: string(data[2:])}
+		b := data[0]
+		c.Cfg = vmx.Cfg{CoC: b&1 != 0, WoD: b&2 != 0, Fate: b&4 != 0, DC: b&8 != 0, IgnoreDiv0: b&16 != 0, OpLimit: 30000,
+			SeedHex: "000102030405060708090a0b0c0d0e0f"}
+		switch data[1] % 3 {
+		case 1:
+			c.Cfg.Mode = "min"
+		case 2:
+			c.Cfg.Mode = "max"
+		}
+		if b&32 != 0 {
+			c.Setup = []string{"力量=3; x=[1,2]; func g(n) { n + 1 }"}
+		}
+		// dicts print in Go map order: inputs that can print a multi-key dict are outside the deterministic domain
+		if strings.Count(c.Src, ":") > 1 && strings.Contains(c.Src, "{") {
+			return
+		}
+		if fl := checkCase(c, s); fl != nil && s.FuzzReport(fl) {
+			t.Fatalf("C03 %s\nobserved: %s\nexpected: %s\ncase: %s", fl.Signature, fl.Observed, fl.Expected, fl.Case)
+		}
 	})
 }
